@@ -113,7 +113,15 @@ def step (st : St) (ws : List String) : St × String :=
     -- body callbacks that err / panic / are slow / re-enter: the property is silent about failing callbacks; the
     -- harness asserts the slow and re-entrant ones directly
     (st, idx ++ " ran")
-  | "twin" :: idx :: _ =>
+  | "twin" :: idx :: _kind :: rest =>
+    -- twin <idx> <kind> <11 header fields> <query> <element bytes> <BEVE payload as produced by the builder route>
+    match headerOfWords (rest.take 11), (rest.drop 11) with
+    | some h, [q, _raw, payload] =>
+      match bytesOfHex q, bytesOfHex payload with
+      | some q, some payload => (st, idx ++ " " ++ hexOfBytes (writeMessageSlice h q payload))
+      | _, _ => (st, idx ++ " bad-op")
+    | _, _ => (st, idx ++ " bad-op")
+  | "twinold" :: idx :: _ =>
     -- documented twins compared by the harness (typed/complex slice writers vs builder + write_message)
     (st, idx ++ " =")
   | "readm" :: idx :: kind :: _frag :: streams =>
